@@ -159,7 +159,7 @@ def guard_case(draw):
     inner_scope = [("x2", queries.SCHEMA[tname])]
     ic = [f"x2.{c}" for c, _ in queries.SCHEMA[tname]]
     types = [t for _, t in queries.SCHEMA[tname]]
-    feature = draw(st.sampled_from(("limit", "limit", "distinct", "group", "window", "none", "const")))
+    feature = draw(st.sampled_from(("limit", "limit", "distinct", "group", "window", "none", "const", "boolproj")))
     where_in = f" WHERE {q.bool_expr(inner_scope, 1, False)}" if draw(st.booleans()) else ""
     cols = [("o0", "int"), ("o1", "int"), ("o2", "text")]
     if feature == "limit":
@@ -176,6 +176,9 @@ def guard_case(draw):
         inner = f"SELECT {ic[0]} AS o0, {draw(st.sampled_from(('1', 'COALESCE(2, ' + ic[1] + ')', ic[1] + ' IS NULL')))} AS o1, 'k' AS o2 FROM {tname} AS x2{where_in}"
         if "IS NULL" in inner:
             inner = inner.replace(ic[1] + " IS NULL AS o1", f"CASE WHEN {ic[1]} IS NULL THEN 1 ELSE 0 END AS o1")
+    elif feature == "boolproj":
+        # a projection that is itself a comparison / IS NULL test: inlining it into an outer comparison must keep its grouping
+        inner = f"SELECT {ic[0]} AS o0, {draw(st.sampled_from((ic[0] + ' = ' + ic[1], ic[0] + ' <> ' + ic[1], ic[1] + ' IS NULL', ic[0] + ' < ' + ic[1], 'NOT ' + ic[0] + ' = 1')))} AS o1, {ic[2]} AS o2 FROM {tname} AS x2{where_in}"
     else:
         inner = f"SELECT {ic[0]} AS o0, {q.int_expr(inner_scope, 1)} AS o1, {ic[2]} AS o2 FROM {tname} AS x2{where_in}"
     as_cte = draw(st.integers(0, 2)) == 0
@@ -188,7 +191,10 @@ def guard_case(draw):
     s3 = [("x3", queries.SCHEMA[t2])]
     j3 = q.col(s3, "int")
     side = draw(st.sampled_from(("JOIN", "LEFT JOIN", "RIGHT JOIN", "FULL JOIN")))
-    pred = draw(st.sampled_from((f"x1.o0 {draw(st.sampled_from(('>', '>=', '=', '<>', '<')))} {draw(st.integers(0, 2))}", f"x1.o1 {draw(st.sampled_from(('>', '=', '<')))} {draw(st.integers(0, 2))}", "x1.o1 IS NULL", "x1.o2 = 'a'", "x1.o0 IS NOT NULL")))
+    if feature == "boolproj":
+        pred = draw(st.sampled_from(("x1.o1", "NOT x1.o1", "x1.o1 = TRUE", "FALSE = x1.o1", "x1.o1 IS NULL", "x1.o1 <> (x1.o0 > 0)", "x1.o1 = x1.o1", "x1.o1 IS NOT TRUE")))
+    else:
+      pred = draw(st.sampled_from((f"x1.o0 {draw(st.sampled_from(('>', '>=', '=', '<>', '<')))} {draw(st.integers(0, 2))}", f"x1.o1 {draw(st.sampled_from(('>', '=', '<')))} {draw(st.integers(0, 2))}", "x1.o1 IS NULL", "x1.o2 = 'a'", "x1.o0 IS NOT NULL")))
     if outer_kind == "where":
         sql = f"SELECT x1.o0 AS o0, x1.o1 AS o1 FROM {src} WHERE {pred}"
     elif outer_kind == "join":
